@@ -827,7 +827,7 @@ func abs(p, dir string) string {
 }
 
 // random temporary-file suffixes (os.CreateTemp) are not part of an event's identity
-var tmpRe = regexp.MustCompile(`(tmp-?|\.)[0-9]{5,}`)
+var tmpRe = regexp.MustCompile(`([-.])[0-9]{5,}`)
 
 func normPath(p string) string { return tmpRe.ReplaceAllString(p, "${1}N") }
 
@@ -866,6 +866,13 @@ func (p *P) faultPasses(r *core.Result, src *tape.Source, sc *scenario, base *ou
 			st := o.Files[name]
 			// reports may embed the random name of the stdin temp file: normalised
 			if st.Exists && (st.Content == w.orig || normPath(st.Content) == normPath(w.final)) {
+				continue
+			}
+			// a report written for stdin input embeds the random name of the stdin
+			// temp file (and a fingerprint derived from it), so its bytes differ from
+			// run to run: there the complete new content is recognised as a complete
+			// JSON document of the same kind (a prefix of one is never valid JSON)
+			if st.Exists && name == sc.OutFile && sc.Cmd == "validate" && sc.Stdin != nil && json.Valid([]byte(st.Content)) && len(st.Content) > len(w.final)/2 {
 				continue
 			}
 			state := "other"
